@@ -1231,6 +1231,15 @@ class BuiltinsMixin(object):
             return self._synthetic_comp(
                 '[__ch_x for __ch_xs in __ch_xss for __ch_x in __ch_xs]',
                 {'__ch_xss': xss}, path, node)
+        if isinstance(fv, ERef) and fv.name == 'itertools.product' and \
+                not kw and len(args) in (2, 3):
+            # product(a, b) is ((x, y) for x in a for y in b)
+            names = ['__pr_%d' % i for i in range(len(args))]
+            src = '[(%s) for %s]' % (
+                ', '.join(n + '_x' for n in names),
+                ' for '.join('%s_x in %s' % (n, n) for n in names))
+            return self._synthetic_comp(src, dict(zip(names, args)), path,
+                                        node)
         if isinstance(fv, ERef) and fv.name == 'functools.reduce' and \
                 len(args) in (2, 3) and not kw:
             return self.bi_reduce(args, path, node)
